@@ -28,13 +28,29 @@ type c20Model struct {
 
 // freshFullView builds a new cache with the options, takes its view and shuts it down.
 func freshFullView(m c20Model) string {
-	c, _ := cdi.NewCache(cdi.WithSpecDirs(m.dirs...), cdi.WithAutoRefresh(m.auto))
-	_ = c.Refresh()
-	v := obs.FullView(c)
-	if m.auto {
-		_ = c.Configure(cdi.WithAutoRefresh(false))
+	for attempt := 0; ; attempt++ {
+		c, _ := cdi.NewCache(cdi.WithSpecDirs(m.dirs...), cdi.WithAutoRefresh(m.auto))
+		_ = c.Refresh()
+		v := obs.FullView(c)
+		noWatcher := false
+		for _, e := range c.GetSpecDirErrors() {
+			if strings.Contains(e.Error(), "failed to create watcher") {
+				noWatcher = true
+			}
+		}
+		if m.auto {
+			_ = c.Configure(cdi.WithAutoRefresh(false))
+		}
+		if !noWatcher {
+			return v
+		}
+		// the reference cache itself got no inotify instance (other processes of this user hold them all):
+		// its view then carries directory errors the cache under test does not have. Wait and try again.
+		if attempt >= 3 {
+			return "VERIF-UNDECIDED the environment has no inotify instance left for the reference cache (fs.inotify.max_user_instances exhausted by other processes)"
+		}
+		waitForInotify()
 	}
-	return v
 }
 
 // agree polls (auto mode) until the cache's view equals that of a fresh cache.
